@@ -171,10 +171,13 @@ CLAIMS["C20"] = {
             "values have different bytes (encoding_injective, from the C01 round trip), and equal pre-images come from equal root bytes and "
             "equal sets (preimage_injective). Tie: final type ids of the real TypeId::compute_from_dyn vs. the model on random type "
             "graphs; implementation-only oracles for invariance (docs, builder order, reference order/duplicates), sensitivity (one "
-            "semantic edit of a reachable type) and the Introspection record round trip.",
+            "semantic edit of a reachable type) and the Introspection record round trip; for the schema corpus of harness-typed, the "
+            "layout that the code produced by the code generator and the derive / service macros reports for every struct, enum, "
+            "newtype, inline type and service against the one derived from the parser's AST.",
     "note": "Trusted: Lean kernel (+propext, Classical.choice, Quot.sound), tools/extract_ir.py, the harness. Assumed: SHA-1 collision "
             "resistance (ids differ when pre-images differ). Partial: that the closure loop collects exactly the reachable types is tied by "
-            "correspondence only; layouts produced by the derive macro / code generator for a schema are not compared (only hand-built IR).",
+            "correspondence only; that generated layouts are the schema's is an implementation-only oracle over a fixed corpus (the AST-to-layout "
+            "translation in harness-typed/build.rs is trusted).",
     "design_ref": "DESIGN.md section 6 C20, section 10",
     "technique": "source-to-Lean translation of the IR serializers + Lean 4 proofs over a generic IR model + differential correspondence on final type ids",
 }
@@ -187,11 +190,16 @@ CLAIMS["C19"] = {
             "(entry_converges); that view is 'the existing objects that match and have every required service, with current object "
             "and service cookies' for each entry kind (bare_entry_view, services_entry_view, any_entry_view); every emitted event is the "
             "transition of what the entry reports for one object and nothing else changes in that step (events_are_transitions); new "
-            "and reset entries are the view of the empty bus (new_entries_related). Tie: the real Discoverer on a real client and broker "
-            "vs. the model, event by event and found-set by found-set, plus an implementation-only convergence oracle at the end of "
-            "every scenario.",
-    "note": "Trusted: Lean kernel (+propext, Classical.choice, Quot.sound), the harness. Partial: the lifetime and wait-for-object clauses "
-            "(aldrin/src/lifetime.rs) are not modelled; that the bus listener delivers an admissible history to the entries (filters, "
+            "and reset entries are the view of the empty bus (new_entries_related). Lifetimes: a model of the loop of "
+            "Lifetime::poll_ended as a fold over its listener's events and of the scope's UUID on the bus (creations under fresh "
+            "cookies, destructions); for EVERY such history, every point at which the lifetime is bound and every cookie it is bound to "
+            "(living, past, never handed out), once the events so far are handled the lifetime has ended iff its scope does not live "
+            "(lifetime_ended_iff_scope_gone; as it holds for every prefix, never while the scope lives). Tie: the real Discoverer on a "
+            "real client and broker vs. the model, event by event and found-set by found-set, plus an implementation-only convergence "
+            "oracle at the end of every scenario and a find_object oracle; real Lifetimes bound at random points of random histories "
+            "of one UUID, polled after every operation, compared with the model and with whether the scope lives.",
+    "note": "Trusted: Lean kernel (+propext, Classical.choice, Quot.sound), the harness. Partial: find_object / wait_for_object are "
+            "one-shot uses of a discoverer and are only checked by an oracle on the real code; that the bus listener delivers an admissible history to the entries (filters, "
             "current enumeration on restart, draining on stop) is tied by the correspondence runs, not proved; async scheduling is "
             "sampled (current-thread runtime, operations awaited one by one).",
     "design_ref": "DESIGN.md section 6 C19, section 10",
